@@ -2595,6 +2595,10 @@ def stored_routines(fns, by_did):
                     out.append((cal, x, c))
         if not found:
             raise Undecidable("%s: classify() calls no member function of the classifier; a classification written out inside classify() is not evaluated" % c.loc)
+        for x in c.nodes():
+            if this_member_access(x) and (_ARR.search(x.get("ty") or "") or (x.get("ty") or "").rstrip().endswith("*")):
+                raise Undecidable("%s: classify() reads the classifier's array %s itself; a classification written out inside classify() is not evaluated"
+                                  % (c.nloc(x), x.get("member")))
     return out
 
 
